@@ -97,7 +97,7 @@ static void classify_crash(int st, const char *err_path, const char *cls, char *
 }
 
 /* ---- round trip -------------------------------------------------------- */
-struct rec { char fn[64]; uint32_t line, tags; uint8_t prio; char text[600]; long t0_ms, t1_ms, ts_ms; int overlong; };
+struct rec { char fn[64]; uint32_t line, tags; uint8_t prio; char text[1400]; long t0_ms, t1_ms, ts_ms; int overlong; };
 /* the time stamp the library took for a message is handed to every target: a custom target notes it, so that the printed
  * one can be compared exactly instead of against the harness' own clock readings */
 static struct timespec cap_ts; static int cap_seen;
@@ -140,7 +140,7 @@ static void log_one(vprng_t *r)
 	x->t1_ms = now_ms_of_day();
 	x->ts_ms = cap_seen ? (long)((cap_ts.tv_sec % 86400) * 1000 + cap_ts.tv_nsec / 1000000) : -1;
 	/* what the property promises: the printf text while it fits the line limit, else the fixed notice */
-	x->overlong = strlen(full) >= 450;     /* near / over the 512 limit incl. the format and raw arguments: not judged for text */
+	x->overlong = strlen(full) >= (size_t)((long_limit ? long_limit : 512) - 62);     /* near / over the 512 limit incl. the format and raw arguments: not judged for text */
 	snprintf(x->text, sizeof x->text, "%s", full);
 	size_t l = strlen(x->text); while (l > 0 && x->text[l - 1] == '\n') x->text[--l] = 0;
 	nR++; n_logged++;
@@ -159,8 +159,7 @@ static void roundtrip_case(long kase)
 	qb_log_filter_ctl(QB_LOG_BLACKBOX, QB_LOG_FILTER_ADD, QB_LOG_FILTER_FILE, "bb.c", LOG_TRACE);
 	qb_log_ctl(QB_LOG_BLACKBOX, QB_LOG_CONF_SIZE, size);
 	/* a fifth of the cases raise the blackbox's own line limit and log records longer than the default 512 bytes: the space
-	 * reserved per record has to follow the limit.  The printer cannot show records above 512 bytes (it says so and stops),
-	 * so these cases are judged on the recorder only: every dump must succeed, and printing must not crash */
+	 * reserved per record has to follow the limit, and the printer has to reproduce such records as well */
 	long_limit = vp_chance(&r, 1, 5) ? 600 + (int)vp_u(&r, 3400) : 0;
 	if (long_limit) { n_longline_cases++; if (qb_log_ctl(QB_LOG_BLACKBOX, QB_LOG_CONF_MAX_LINE_LEN, long_limit) != 0) long_limit = 0; }
 	int rc = qb_log_ctl(QB_LOG_BLACKBOX, QB_LOG_CONF_ENABLED, QB_TRUE);
@@ -179,7 +178,7 @@ static void roundtrip_case(long kase)
 		ssize_t w = qb_log_blackbox_write_to_file(path);
 		if (w <= 0) { vp_violation("bb:write-to-file-failed", "returned %zd after %d records (size %d)", w, nR, size); break; }
 		n_dumps++;
-		if (long_limit) { int st0 = print_in_child(path, out, err); if (!WIFEXITED(st0) || WEXITSTATUS(st0) > 3) { char key[200], det[1000]; classify_crash(st0, err, "valid-dump-long-lines", key, sizeof key, det, sizeof det); vp_violation(key, "%s", det); break; } continue; }
+		/* (cases with a raised line limit are judged like all others: the printer has to cope with records of that length) */
 		int st = print_in_child(path, out, err);
 		if (!WIFEXITED(st) || WEXITSTATUS(st) > 3) {
 			char key[200], det[1000]; classify_crash(st, err, "valid-dump", key, sizeof key, det, sizeof det);
@@ -229,7 +228,7 @@ static void roundtrip_case(long kase)
 		if (nprinted == 0) { vp_violation("bb:dump-prints-no-record", "after %d logged records (size %d); rc status 0x%x", nR, size, st); break; }
 		if (last_idx != nR - 1) { vp_violation("bb:dump-does-not-end-with-last-record", "last printed #%d, last logged #%d", last_idx, nR - 1); break; }
 		/* retention: conservative bound with the largest possible record (33 + fn + 512 of reserved space) */
-		int kmin = size / (33 + 64 + 512 + 16); if (kmin > nR) kmin = nR; if (kmin < 1) kmin = 1;
+		int kmin = size / (33 + 64 + (long_limit > 512 ? long_limit : 512) + 16); if (kmin > nR) kmin = nR; if (kmin < 1) kmin = 1;
 		if (nprinted < kmin) { vp_violation("bb:dump-retains-too-few-records", "printed %d, size %d guarantees >= %d", nprinted, size, kmin); break; }
 		if (first_idx > 0) n_wrapped_dumps++;
 		h = vp_hash_u64(h, (uint64_t)nprinted * 131 + (uint64_t)(first_idx > 0));
